@@ -33,6 +33,8 @@ FILES = {
     '~/f.txt': b'tilde f', '~/sub/g.txt': b'tilde g', '$HOME/f.txt': b'dollar f', '~nobody-verif/f.txt': b'tilde user f',
     'home/f.txt': b'HOME-DECOY f', 'home/sub/g.txt': b'HOME-DECOY g', 'home/secret.txt': b'HOME-DECOY secret', 'home/static/f.txt': b'HOME-DECOY static',
     '~/static/f.txt': b'tilde static f',
+    # entries beside the root whose names are the root's name plus a backslash / a blank / a dot
+    'root\\secret.txt': b'BACKSLASH-SIBLING-DECOY', 'root\\sub\\g.txt': b'BACKSLASH-SIBLING-DECOY 2', 'root /secret.txt': b'BLANK-SIBLING-DECOY', 'root./secret.txt': b'DOT-SIBLING-DECOY',
     # a directory whose name holds the path-list separator (host:port style), with same-named decoys in the directory before the colon
     'srv:8080/pub/f.txt': b'colon f', 'srv:8080/pub/sub/g.txt': b'colon g', 'srv/f.txt': b'SRV-DECOY f', 'srv/sub/g.txt': b'SRV-DECOY g', '8080/pub/f.txt': b'PORT-DECOY f',
     'site2/root/f.txt': b'site2 f', 'site2/root/sub/g.txt': b'site2 g', 'site2/top.txt': b'SITE2-TOP-DECOY', 'site2/root2/decoy.txt': b'SITE2-ROOT2-DECOY',
@@ -282,6 +284,7 @@ def run(ctx):
             # dot-dot spelled with a control character / blank / escape inside or beside it
             for dd in ('.\0.', '..\n', '\r..', '.\r.', '..\0', '.\n.', '\0..', '. .', '.\t.', '%2e%2e', '.%00.', '..%00'):
                 escapes += [dd + '/top.txt', dd + '/secret.txt', 'sub/' + dd + '/' + dd + '/top.txt', dd + '/root2/decoy.txt', dd + '\\top.txt']
+            escapes += ['../root\\secret.txt', '..\\root\\secret.txt', '../root\\sub\\g.txt', '../root /secret.txt', '../root./secret.txt', 'sub/../../root\\secret.txt']
             for rs in ROOTS:
                 for e in escapes:
                     for cwd in ('', 'site2', ''):
